@@ -303,12 +303,58 @@ def non_involution(rng, n):
             return p
 
 
-def gen_e2e(rng, nmax, sign=None, ham=None):
+def gen_initial(rng, n, kind, letters):
+    """user-supplied initial state in REGISTER order as [(basis string, [re, im]), …], not symmetric under
+    any non-trivial permutation of the atoms (distinct per-atom weights / an asymmetric basis string)."""
+    one, zero = letters
+    if kind == "basis":
+        while True:
+            b = "".join(rng.choice(letters) for _ in range(n))
+            if one in b and zero in b and b != b[::-1]:
+                return [(b, [1.0, 0.0])]
+    if kind == "product":
+        # atom i in cos(th_i)|zero> + e^{i a_i} sin(th_i)|one> with distinct th_i
+        th = [0.25 + 0.35 * i + rng.uniform(0, 0.1) for i in range(n)]
+        al = [rng.uniform(0, 1.5) for _ in range(n)]
+        import cmath, math, itertools
+        out = []
+        for bits_ in itertools.product((0, 1), repeat=n):
+            amp = 1.0 + 0j
+            for i, b in enumerate(bits_):
+                amp *= cmath.exp(1j * al[i]) * math.sin(th[i]) if b else math.cos(th[i])
+            out.append(("".join(one if b else zero for b in bits_), [amp.real, amp.imag]))
+        return out
+    # entangled: a few basis strings with unequal complex weights
+    keys = []
+    while len(keys) < 3:
+        b = "".join(rng.choice(letters) for _ in range(n))
+        if b not in keys:
+            keys.append(b)
+    ws = [0.8, 0.5, (1 - 0.64 - 0.25) ** 0.5]
+    return [(b, [w * math_cos(a), w * math_sin(a)]) for b, w, a in zip(keys, ws, [0.0, rng.uniform(0.3, 2.5), rng.uniform(0.3, 2.5)])]
+
+
+def math_cos(a):
+    import math
+    return math.cos(a)
+
+
+def math_sin(a):
+    import math
+    return math.sin(a)
+
+
+def gen_e2e(rng, nmax, sign=None, ham=None, initial=None):
     import math
     sign = sign or rng.choice(["nonneg", "mixed", "mixed", "negative"])
     ham = ham or rng.choice(["Rydberg", "Rydberg", "XY"])
-    n = rng.randint(3, nmax)
+    initial = initial or rng.choice(["none", "none", "basis", "product", "entangled"])
     if ham == "XY":
+        initial = "none"        # MPS.from_state_amplitudes: "Unsupported basis provided" for ("u","d")
+    n = rng.randint(3, nmax)
+    if ham == "XY" or initial != "none":
+        # clean-tree order/solver dependence at n=4: XY 4e-5, user-supplied initial states up to 1.6e-4 — too close to
+        # any useful tolerance; at n=3 everything agrees to 1e-11
         n = 3           # order-dependence of the XY solver at n=4 is ~4e-5 (clean tree): too close to any useful tolerance
     pts = [(rng.uniform(0, 8 * n), rng.uniform(0, 6)) for _ in range(n)]
     U = [[0.0] * n for _ in range(n)]
@@ -329,7 +375,9 @@ def gen_e2e(rng, nmax, sign=None, ham=None):
                 ids=[f"q{i}" for i in range(n)],
                 bad=[False] * n, site_perm=non_involution(rng, n), relabel=pc.rand_perm(rng, n),
                 kill_after=rng.randint(1, 3))
-    if rng.random() < 0.3:
+    case["initial_kind"] = initial
+    case["initial"] = None if initial == "none" else gen_initial(rng, n, initial, ("u", "d") if ham == "XY" else ("r", "g"))
+    if rng.random() < 0.3 and case["initial"] is None:      # an initial state with state-preparation errors is NotImplemented
         case["bad"][rng.randrange(n)] = True
     return case
 
@@ -388,11 +436,19 @@ def run_backend(case, order, site_perm, optimise, resume_after=None):
                                      eigenstates=("u", "d") if xy else ("r", "g"), hamiltonian_type="XY" if xy else "Rydberg")
     probe_times = [0.0, 0.5 * tt[-1], tt[-1]]
     before = [data.interaction_matrix(t).detach().clone().view(torch.int64) for t in probe_times]
-    ev = [1.0]
-    cfg = compat.mps_config(observables=[pb.Occupation(evaluation_times=ev), pb.CorrelationMatrix(evaluation_times=ev),
-                                         pb.Energy(evaluation_times=ev)],
-                            optimize_qubit_ordering=optimise, dt=10, precision=1e-10,
-                            **({"autosave_dt": 11} if resume_after is not None else {}))
+    ev = E2E_TIMES
+    letters = ("u", "d") if xy else ("r", "g")
+    extra = {}
+    if case.get("initial"):
+        from emu_mps import MPS
+        # the same physical state written for the atoms in `order`: position k of the label is atom order[k]
+        extra["initial_state"] = MPS.from_state_amplitudes(
+            eigenstates=letters, amplitudes={"".join(b[i] for i in order): complex(*a) for b, a in case["initial"]})
+    obs = [pb.Occupation(evaluation_times=ev), pb.CorrelationMatrix(evaluation_times=ev), pb.Energy(evaluation_times=ev)]
+    if case.get("initial_kind") == "basis":
+        obs.append(pb.BitStrings(evaluation_times=[0.0], num_shots=20))
+    cfg = compat.mps_config(observables=obs, optimize_qubit_ordering=optimise, dt=10, precision=1e-10,
+                            **({"autosave_dt": 11} if resume_after is not None else {}), **extra)
     real_mb = impl_mod.optimat.minimize_bandwidth
     use_real = case.get("real_order") and resume_after is None
 
@@ -410,44 +466,127 @@ def run_backend(case, order, site_perm, optimise, resume_after=None):
     if not all(torch.equal(a, b) for a, b in zip(before, after)):
         raise InputMutated("SequenceData.interaction_matrix(t) is not bit-identical after the run "
                            f"(optimize_qubit_ordering={optimise}): the run modified its input in place")
+    return collect(case, r)
+
+
+E2E_TIMES = [0.0, 1.0]
+
+
+def collect(case, r):
+    """per-atom values keyed by atom *identifier* (so that runs in different orders are comparable):
+    ({key: float}, atom_order, {register-order bitstring: count} at t=0 or None)"""
+    import torch
     ao = list(r.atom_order)
-    occ = torch.as_tensor(r.get_result("occupation", 1.0)).tolist()
-    cor = torch.as_tensor(r.get_result("correlation_matrix", 1.0)).tolist()
-    return ({a: occ[k] for k, a in enumerate(ao)},
-            {(a, b): cor[k][l] for k, a in enumerate(ao) for l, b in enumerate(ao)},
-            float(r.get_result("energy", 1.0)), ao)
+    vals = {}
+    for t in E2E_TIMES:
+        occ = torch.as_tensor(r.get_result("occupation", t)).real.tolist()
+        cor = torch.as_tensor(r.get_result("correlation_matrix", t)).real.tolist()
+        for k, a in enumerate(ao):
+            vals[("occupation", t, a)] = occ[k]
+            for l, b in enumerate(ao):
+                vals[("correlation", t, a, b)] = cor[k][l]
+        vals[("energy", t)] = float(r.get_result("energy", t))
+    bits0 = None
+    if "bitstrings" in r.get_result_tags():
+        pos = {a: k for k, a in enumerate(ao)}
+        bits0 = {}
+        for b, c in r.get_result("bitstrings", 0.0).items():
+            key = "".join(b[pos[a]] for a in case["ids"])          # rewritten in the case's register order
+            bits0[key] = bits0.get(key, 0) + c
+    return vals, ao, bits0
+
+
+def dense_reference(case):
+    """(a) t = 0 straight from the amplitudes (definition of occupation / <n_i n_j>); (b) Rydberg without dark
+    atoms: the dense state-vector back-end emu-sv on the same SequenceData and the same initial state."""
+    import torch
+    from harness import compat
+    import pulser.backend as pb
+    n, ids = case["n"], case["ids"]
+    ref = {}
+    if case["ham"] != "XY" and not any(case["bad"]):
+        amps = case["initial"] or [("g" * n, [1.0, 0.0])]
+        norm = sum(a[0] ** 2 + a[1] ** 2 for _, a in amps)
+        for i, a in enumerate(ids):
+            ref[("occupation", 0.0, a)] = sum(x[0] ** 2 + x[1] ** 2 for b, x in amps if b[i] == "r") / norm
+            for j, b_ in enumerate(ids):
+                ref[("correlation", 0.0, a, b_)] = sum(x[0] ** 2 + x[1] ** 2 for b, x in amps if b[i] == "r" and b[j] == "r") / norm
+        tt = [10.0 * k for k in range(case["steps"] + 1)]
+        data = compat.make_sequence_data(case["omega"], case["delta"], case["phi"], case["U"], tt, qubit_ids=ids)
+        extra = {}
+        if case["initial"]:
+            from emu_sv import StateVector
+            extra["initial_state"] = StateVector.from_state_amplitudes(
+                eigenstates=("r", "g"), amplitudes={b: complex(*a) for b, a in case["initial"]})
+        ev = E2E_TIMES
+        cfg = compat.sv_config(observables=[pb.Occupation(evaluation_times=ev), pb.CorrelationMatrix(evaluation_times=ev),
+                                            pb.Energy(evaluation_times=ev)], dt=10, **extra)
+        sv = collect(case, compat.run_sv(data, cfg))[0]
+        for k, v in sv.items():
+            if k[1] == 1.0 or k[0] == "energy":
+                ref[k] = v
+    return ref
+
+
+def _dist(got, ref):
+    """largest deviation over the keys of `ref` (energies relative to 1+|E|), and where"""
+    worst, where = 0.0, None
+    for k, v in ref.items():
+        d = abs(got[k] - v) / (1 + abs(v)) if k[0] == "energy" else abs(got[k] - v)
+        if not d <= worst:
+            worst, where = d, k
+    return worst, where
 
 
 def e2e_oracle(case):
-    """C03 on one problem: reordering on/off and relabelling give the same per-atom results. Failure string or None."""
+    """C03 on one problem: reordering on/off, relabelling and kill+resume give the same per-atom results, at t = 0
+    and at the end, for the default and for user-supplied initial states; and they are the dense reference's.
+    Failure string or None."""
     n = case["n"]
     ident = list(range(n))
-    base = run_backend(case, ident, ident, False)
+    tol = e2e_tol(n)
     worst = 0.0
+    base, base_ao, base_bits = run_backend(case, ident, ident, False)
+    ref = dense_reference(case)
+    if ref:
+        d, where = _dist(base, ref)
+        worst = max(worst, d)
+        if not d <= tol:
+            return f"ordering off: {where} differs from the dense reference by {d:.3e} > {tol}", worst
     for name, order, sp, opt, res in (("optimize_qubit_ordering on", ident, case["site_perm"], True, None),
                                       ("relabelled register", case["relabel"], ident, False, None),
                                       ("relabelled register + ordering on", case["relabel"], case["site_perm"], True, None),
                                       (f"ordering on, killed after {case.get('kill_after', 2)} progress calls and resumed",
                                        ident, case["site_perm"], True, case.get("kill_after", 2))):
         try:
-            got = run_backend(case, order, sp, opt, res)
+            got, ao, bits0 = run_backend(case, order, sp, opt, res)
         except InputMutated as e:
             return f"{name}: {e}", worst
-        if got[3] != [case["ids"][i] for i in order]:
-            return f"{name}: atom_order {got[3]} is not the register order", worst
-        d = max([abs(got[0][a] - base[0][a]) for a in base[0]] + [abs(got[1][k] - base[1][k]) for k in base[1]]
-                + [abs(got[2] - base[2]) / (1 + abs(base[2]))])
+        if ao != [case["ids"][i] for i in order]:
+            return f"{name}: atom_order {ao} is not the register order", worst
+        d, where = _dist(got, base)
         worst = max(worst, d)
-        if not d <= e2e_tol(n):
-            return f"{name}: per-atom results differ by {d:.3e} > {e2e_tol(n)}", worst
+        if not d <= tol:
+            return f"{name}: {where} differs from the run with ordering off by {d:.3e} > {tol}", worst
+        if ref:
+            d, where = _dist(got, ref)
+            if not d <= tol:
+                return f"{name}: {where} differs from the dense reference by {d:.3e} > {tol}", worst
+        if base_bits is not None and bits0 != base_bits:
+            return f"{name}: bitstrings of the basis state at t=0 are {bits0}, with ordering off {base_bits}", worst
+    if base_bits is not None and list(base_bits) != [case["initial"][0][0].replace("r", "1").replace("g", "0")]:
+        return f"ordering off: a run started in basis state {case['initial'][0][0]} samples {base_bits} at t=0", worst
     return None, worst
 
 
 def e2e_search(rep: Report, rng, ncases: int, nmax: int) -> None:
     worst = 0.0
     for k in range(ncases):
-        # the first two cases always carry mixed-sign couplings: a signed user matrix (Rydberg) and XY
-        case = gen_e2e(rng, nmax, *((("mixed", "Rydberg"), ("mixed", "XY"))[k] if k < 2 else (None, None)))
+        # the first cases always carry mixed-sign couplings (a signed user matrix, XY) and the three kinds of
+        # user-supplied initial states
+        fixed = (("mixed", "Rydberg", "entangled"), ("mixed", "XY", "none"), ("nonneg", "Rydberg", "product"),
+                 ("negative", "Rydberg", "basis"))
+        case = gen_e2e(rng, nmax, *(fixed[k] if k < len(fixed) else (None, None, None)))
         try:
             msg, w = e2e_oracle(case)
         except Exception as e:
@@ -463,6 +602,7 @@ def e2e_search(rep: Report, rng, ncases: int, nmax: int) -> None:
         rep.hist("e2e_interaction_sign", case["sign"])
         rep.hist("e2e_hamiltonian", case["ham"])
         rep.hist("e2e_order", "real optimiser" if case["real_order"] else "forced")
+        rep.hist("e2e_initial_state", case["initial_kind"])
     rep.extra["e2e_worst_difference"] = worst
     rep.extra["e2e_tolerance"] = "1e-6 (n=3), 1e-3 (n=4)"
 
@@ -508,10 +648,53 @@ def check(rep: Report, tier: str, seed: int) -> None:
     results_correspondence(rep, rng, 80 if quick else 2000)
     observables_correspondence(rep, rng, 25 if quick else 200)
     probe_list_precision(rep)
-    e2e_search(rep, rng, 2 if quick else 30, 3 if quick else 4)
+    probe_tag_suffix(rep)
+    e2e_search(rep, rng, 3 if quick else 30, 3 if quick else 4)
     extra.merge()
     if rep.broken and not rep.failing:
         search(rep, seed, 400 if quick else 5000)
+
+
+SUFFIX_CLASS = "permute_results-tag-suffix"
+
+
+def tag_suffix_probe(site_perm):
+    """real 3-atom run with per-atom drives, the same observables once with the plain tag and once with a
+    `tag_suffix`: with reordering on, the suffixed results must be in register order too (= the plain ones)."""
+    import torch
+    from unittest import mock
+    from harness import compat
+    import pulser.backend as pb
+    import emu_mps.mps_backend_impl as impl_mod
+    U = [[0, 3.0, 1.0], [3.0, 0, 2.0], [1.0, 2.0, 0]]
+    steps = 2
+    tt = [10.0 * k for k in range(steps + 1)]
+    om, de, ph = [[4.0, 6.0, 8.0]] * steps, [[1.0, -2.0, 3.0]] * steps, [[0.0, 0.0, 0.0]] * steps
+    ev = [1.0]
+    obs = [pb.Occupation(evaluation_times=ev), pb.Occupation(evaluation_times=ev, tag_suffix="x"),
+           pb.CorrelationMatrix(evaluation_times=ev), pb.CorrelationMatrix(evaluation_times=ev, tag_suffix="y")]
+    cfg = compat.mps_config(observables=obs, optimize_qubit_ordering=True, dt=10, precision=1e-10)
+    with mock.patch.object(impl_mod.optimat, "minimize_bandwidth", lambda M: torch.tensor(site_perm, dtype=torch.int64)):
+        r = compat.run_mps(compat.make_sequence_data(om, de, ph, U, tt), cfg)
+    occ, occx = (torch.as_tensor(r.get_result(t, 1.0)).real for t in ("occupation", "occupation_x"))
+    cor, cory = (torch.as_tensor(r.get_result(t, 1.0)).real for t in ("correlation_matrix", "correlation_matrix_y"))
+    if float((occ - occx).abs().max()) > 1e-9:
+        return (f"with optimize_qubit_ordering on, Occupation(tag_suffix='x') is reported in site order: "
+                f"occupation={[round(x, 6) for x in occ.tolist()]} occupation_x={[round(x, 6) for x in occx.tolist()]}")
+    if float((cor - cory).abs().max()) > 1e-9:
+        return "with optimize_qubit_ordering on, CorrelationMatrix(tag_suffix='y') is reported in site order"
+    return None
+
+
+def probe_tag_suffix(rep: Report) -> None:
+    p = [1, 2, 0]
+    try:
+        msg = tag_suffix_probe(p)
+    except Exception as e:
+        msg = f"back-end raised {type(e).__name__}: {str(e)[:160]}"
+    if msg:
+        rep.fail(msg, dict(kind="tag_suffix", site_perm=p), klass=SUFFIX_CLASS)
+    rep.case(key=("tag_suffix", tuple(p)), nontrivial=True, trace=False)
 
 
 F32_CLASS = "permute_results-list-valued-float32"
@@ -578,6 +761,8 @@ def replay(rep: Report, path: str) -> int:
         try:
             if d["kind"] == "helpers":
                 msg = pc.helper_laws(d["p"], d["q"], [f"q{i}" for i in range(len(d["p"]))], d["s"])
+            elif d["kind"] == "tag_suffix":
+                msg = tag_suffix_probe(d["site_perm"])
             elif d["kind"] == "list_f32":
                 msg = list_precision_probe(d["p"], d["occ"])
             elif d["kind"] == "e2e":
